@@ -68,6 +68,7 @@ pub struct Engine {
     pub ops: Vec<String>,
     pub rotations: u64,
     pub consultations: u64,
+    pub unconsulted_appends: u64,
     pub with_newline: bool,
     /// every decision seen, for C06
     pub decisions_seen: Vec<Decision>,
@@ -97,6 +98,7 @@ impl Engine {
             ops: vec![],
             rotations: 0,
             consultations: 0,
+            unconsulted_appends: 0,
             with_newline: true,
             decisions_seen: vec![],
         }
@@ -145,9 +147,13 @@ impl Engine {
         let enc = self.encoder();
         if let Some(app_key) = self.via_config {
             // same appender, but constructed by the config-file machinery
-            let limit = match &self.trig {
-                TrigSpec::Size(n) => *n,
-                _ => return Err(("INCONCLUSIVE".into(), "via_config supports the size trigger only".into())),
+            // the real trigger of that kind, built by its own deserializer, inside the recording wrapper
+            let inner = match &self.trig {
+                TrigSpec::Size(n) => format!("{{kind: size, limit: {}}}", n),
+                // the documented default of min_size is 1: leave the key out for it now and then
+                TrigSpec::OnStartUp(1) if self.ops.len() % 2 == 0 => "{kind: onstartup}".to_owned(),
+                TrigSpec::OnStartUp(m) => format!("{{kind: onstartup, min_size: {}}}", m),
+                _ => return Err(("INCONCLUSIVE".into(), "via_config supports the size and on-start-up triggers only".into())),
             };
             self.with_newline = false;
             let roller = match &self.roller {
@@ -157,13 +163,14 @@ impl Engine {
                     self.root.to_str().unwrap(), pattern_rel, base, count),
             };
             let doc = format!(
-                "path: '{}/{}'\n{}encoder: {{pattern: '{{m}}{{n}}'}}\npolicy:\n  trigger: {{kind: rec_size, limit: {}}}\n  roller: {}\n",
+                "path: '{}/{}'\n{}encoder: {{pattern: '{{m}}{{n}}'}}\npolicy:\n  trigger: {{kind: rec_wrap, inner: {}}}\n  roller: {}\n",
                 self.root.to_str().unwrap(), ACTIVE,
                 match app_key { Some(b) => format!("append: {}\n", b), None => String::new() },
-                limit, roller);
+                inner, roller);
             let value: serde_value::Value = serde_yaml::from_str(&doc).map_err(|e| ("INCONCLUSIVE".to_owned(), format!("harness yaml: {}", e)))?;
             let mut d = log4rs::config::Deserializers::default();
             d.insert("rec_size", RecSizeDeser);
+            d.insert("rec_wrap", RecWrapDeser);
             CURRENT_LOG.with(|c| *c.borrow_mut() = Some(self.dec_log.clone()));
             let app = crate::trap::catch(|| d.deserialize::<dyn Append>("rolling_file", value));
             CURRENT_LOG.with(|c| *c.borrow_mut() = None);
@@ -227,10 +234,14 @@ impl Engine {
         let decisions: Vec<Decision> = self.dec_log.lock().unwrap()[before..].to_vec();
         self.consultations += decisions.len() as u64;
         self.decisions_seen.extend(decisions.iter().cloned());
-        if decisions.len() != 1 {
-            return Err(("INCONCLUSIVE".into(), format!("the policy was consulted {} times during one append; the exact model assumes once", decisions.len())));
+        if decisions.len() > 1 {
+            return Err(("INCONCLUSIVE".into(), format!("the policy was consulted {} times during one append; the exact model assumes at most once", decisions.len())));
         }
-        let fire = matches!(decisions[0].result, Ok(true));
+        // not consulted at all: nothing can have been rotated (whether that is acceptable is C06's question)
+        if decisions.is_empty() {
+            self.unconsulted_appends += 1;
+        }
+        let fire = decisions.first().map(|d| matches!(d.result, Ok(true))).unwrap_or(false);
         if self.trig.is_pre() {
             if fire {
                 let old = self.active.take().unwrap_or_default();
@@ -284,6 +295,29 @@ impl log4rs::config::Deserialize for RecSizeDeser {
     }
 }
 
+#[derive(serde::Deserialize)]
+pub struct RecWrapCfg {
+    inner: std::collections::BTreeMap<serde_value::Value, serde_value::Value>,
+}
+
+/// Config-file kind `rec_wrap`: whatever trigger `inner` describes, built by the deserializer registered
+/// for its kind, inside the recording wrapper.
+pub struct RecWrapDeser;
+
+impl log4rs::config::Deserialize for RecWrapDeser {
+    type Trait = dyn Trigger;
+    type Config = RecWrapCfg;
+    fn deserialize(&self, mut c: RecWrapCfg, d: &log4rs::config::Deserializers) -> anyhow::Result<Box<dyn Trigger>> {
+        let kind = match c.inner.remove(&serde_value::Value::String("kind".into())) {
+            Some(serde_value::Value::String(k)) => k,
+            _ => anyhow::bail!("rec_wrap: inner trigger has no kind"),
+        };
+        let inner = d.deserialize::<dyn Trigger>(&kind, serde_value::Value::Map(c.inner))?;
+        let log = CURRENT_LOG.with(|l| l.borrow().clone()).unwrap_or_default();
+        Ok(Box::new(RecTrigger { inner, log }))
+    }
+}
+
 /// Scripted trigger whose remaining decisions are shared with the engine (survive restarts).
 #[derive(Debug)]
 struct SharedScript {
@@ -334,9 +368,19 @@ fn gen_trigger(rng: &mut Rng, n_ops: usize) -> TrigSpec {
 
 fn single_history(rep: &mut Report, rng: &mut Rng, idx: u64) {
     let sc = Scratch::new("c05");
-    let n_ops = 5 + rng.usize_below(60);
-    let trig = gen_trigger(rng, n_ops);
-    let roller = gen_roller(rng, true);
+    let mut n_ops = 5 + rng.usize_below(60);
+    let mut trig = gen_trigger(rng, n_ops);
+    let mut roller = gen_roller(rng, true);
+    // now and then: files of hundreds of KiB of poorly compressible text into compressed archives
+    let big = cfg!(feature = "full") && rng.chance(1, 20);
+    if big {
+        n_ops = 6 + rng.usize_below(8);
+        trig = TrigSpec::Size(*rng.pick(&[70_000u64, 150_000, 300_000]));
+        let comp = if rng.chance(1, 2) { crate::c07::Comp::Gz } else { crate::c07::Comp::Zst };
+        roller = crate::rolling::RollerKind::Window { base: 0, count: *rng.pick(&[1u32, 2, 3]), comp,
+            pattern_rel: if comp == crate::c07::Comp::Gz { "arch/app.{}.log.gz".into() } else { "arch/app.{}.log.zst".into() } };
+        rep.count("histories_with_large_compressed_archives", 1);
+    }
     let append_mode = rng.chance(3, 4);
     let enc_kind = *rng.pick(&[0u64, 1, 1, 3, 17, 99, 99]);
     let mut e = Engine::new(sc.path.clone(), append_mode, roller, trig.clone(), enc_kind);
@@ -400,7 +444,7 @@ fn single_history(rep: &mut Report, rng: &mut Rng, idx: u64) {
             rep.count("restarts", 1);
             continue;
         }
-        let len = sizes_around(limit, rng);
+        let len = if big { Some(20_000 + rng.usize_below(60_000)) } else { sizes_around(limit, rng) };
         let len = if enc_kind == 0 && len.is_none() { Some(0) } else { len };
         let r = e.append(1, seq, len);
         seq += 1;
